@@ -82,6 +82,7 @@ def expected_probe_events(spec, model, call, m):
         from ..world import default_inputs_backward
 
         inputs = call["inputs"] if call.get("inputs") is not None else default_inputs_backward(model, call["tensors"])
+        hook_tags = {n["p"]["tag"] for n in spec["nodes"] if n["op"] == "probe" and n["p"].get("hook")}
         for tag, pin, pout in probes:
             on_root = any(pout in anc[r] for r in call["tensors"])
             reaches = any(t in anc[pin] for t in inputs)
@@ -100,6 +101,7 @@ def expected_probe_events(spec, model, call, m):
                 if pout in anc[loss] and any(t in anc[pin] for t in targets):
                     head += 1
             on_root = any(pout in anc[f] for f in call["features"])
+            is_root_hook = pout in call["features"] and any(n["op"] == "probe" and n["p"].get("hook") and n["p"]["tag"] == tag for n in spec["nodes"])
             jac = list(jac_events) if (on_root and any(t in anc[pin] for t in shared) and len(shared) > 0) else []
             exp[tag] = (head, jac)
     return exp, sizes
@@ -227,6 +229,7 @@ def execute(scn):
         got = {}
         for e in log:
             got.setdefault(e[1], []).append((e[2], e[3]))
+        hook_probe_tags = {n["p"]["tag"] for n in spec["nodes"] if n["op"] == "probe" and n["p"].get("hook")}
         for tag, (head, jac) in exp_events.items():
             g = got.get(tag, [])
             # C07 fixes the number and sizes of the sweeps between the differentiated tensors and the
@@ -238,6 +241,13 @@ def execute(scn):
             bad_head = any(x[0] == "vmap" for x in hpart)
             if call["api"] == "backward" and hpart:
                 bad_jac = True  # no other differentiation exists in backward(): extra sweeps are extra sweeps
+            if tag in hook_probe_tags:
+                # user tensor hooks: whether torch runs the hook of a tensor that is itself a root / not needed
+                # is torch's business; only "never batched when sequential is promised" and "no sweep larger
+                # than k" are asserted for them
+                kk = m if k is None else k
+                bad_jac = any(x[0] == "vmap" and (x[1] or 0) > kk for x in g)
+                bad_head = sequential and any(x[0] == "vmap" for x in g)
             if bad_jac or bad_head:
                 clause = "sweep_schedule"
                 if (sequential and any(x[0] == "vmap" for x in g)) or bad_head:
